@@ -787,7 +787,10 @@ echs_task_owned_by_p(echs_task_t t, uid_t uid)
 
 
 /* task pool */
+#if !(defined ECHSE_VERIF && defined ECHS_TASK_POOL_INIZ)
+/* verification hook: harnesses may preset a smaller pool */
 #define ECHS_TASK_POOL_INIZ	(256U)
+#endif
 static _task_t free_tasks;
 static size_t nfree_tasks;
 static size_t zfree_tasks;
@@ -1265,7 +1268,10 @@ unwind_till(echs_evstrm_t x, ev_tstamp t)
 
 
 /* child pool */
+#if !(defined ECHSE_VERIF && defined ECHS_CHLD_POOL_INIZ)
+/* verification hook: harnesses may preset a smaller pool */
 #define ECHS_CHLD_POOL_INIZ	(256U)
+#endif
 static ev_child *free_chlds;
 static size_t nfree_chlds;
 static size_t zfree_chlds;
